@@ -395,6 +395,26 @@ private def readSurf (st : RState) (idTok : String) (body : List String) : RStat
         if xs.length != k.arity then st := err st s!"SURF {id}: {kw} expects {k.arity} parameters, got {xs.length}"
         return { st with file := { st.file with surfs := st.file.surfs ++ [(id, { kind := k, ps := xs, tr })] } }
 
+/-- what the reader keeps of a BOUNDARY_CONDITION block -/
+structure BCAcc where
+  declared : Option Nat := none
+  entries : List (String × Nat) := []      -- kind, surface id
+  errs : List String := []
+deriving Repr, DecidableEq
+
+/-- one line of the block (not the END line) -/
+def bcLine (a : BCAcc) (ws : List String) : BCAcc :=
+  match ws with
+  | [n] =>
+      match n.toNat? with
+      | some k => { a with declared := some k }
+      | none => { a with errs := a.errs ++ [s!"BOUNDARY_CONDITION: bad count {n}"] }
+  | ["ALL_COMPLETE", kind, id] =>
+      match id.toNat? with
+      | some k => { a with entries := a.entries ++ [(kind, k)] }
+      | none => { a with errs := a.errs ++ [s!"BOUNDARY_CONDITION: bad surface id {id}"] }
+  | _ => { a with errs := a.errs ++ [s!"BOUNDARY_CONDITION: unexpected line '{" ".intercalate ws}'"] }
+
 /-- the words after an optional NB_ATOM flag -/
 def dropNbAtom (r : List String) : List String := match r with | "NB_ATOM" :: r => r | r => r
 
@@ -486,15 +506,10 @@ private def readLine (st : RState) (line : String) : RState :=
       | none => st
   | 2, _ => err st s!"GEOMCOMP: unexpected line '{code}'"
   | 3, ["END_BOUNDARY_CONDITION"] => { st with mode := 0 }
-  | 3, [n] =>
-      match n.toNat? with
-      | some k => { st with file := { st.file with bcDeclared := some k } }
-      | none => err st s!"BOUNDARY_CONDITION: bad count {n}"
-  | 3, ["ALL_COMPLETE", kind, id] =>
-      match id.toNat? with
-      | some k => { st with file := { st.file with bcs := st.file.bcs ++ [(kind, k)] } }
-      | none => err st s!"BOUNDARY_CONDITION: bad surface id {id}"
-  | 3, _ => err st s!"BOUNDARY_CONDITION: unexpected line '{code}'"
+  | 3, ws =>
+      let a := bcLine { declared := st.file.bcDeclared, entries := st.file.bcs } ws
+      let st := a.errs.foldl err st
+      { st with file := { st.file with bcDeclared := a.declared, bcs := a.entries } }
   | _, _ => st
 
 def T4File.read (text : String) : T4File Float :=
